@@ -186,6 +186,20 @@ func (e *engRunner) coarseMtimePairs(idx int, cases []pairCase, stride int, ever
 		}
 		idx++
 	}
+	// rewrites by B that leave the NUMBER of tables (hence the size of tables.list)
+	// unchanged while A's pre-opened handle goes stale: [a b] -> [ab] -> [ab c], and
+	// [a] -> [a b] -> [ab] through the auto-compaction of B's Add
+	for ri, rb := range []struct {
+		rec eng.Recipe
+		b   string
+	}{{eng.Recipe{0, 0}, "compactall,add"}, {eng.Recipe{0}, "add"}, {eng.Recipe{60, 0, 0}, "compactall,add,add"}} {
+		for ai, a := range []string{"add", "compactall", "clean", "addmulti"} {
+			if e.c.Mine(idx) {
+				e.sweepPair("coarse-mtime pair-sweep(count-preserving rewrite)", idx, engCfg(ri+ai), rb.rec, a, rb.b, "", true, every)
+			}
+			idx++
+		}
+	}
 	return idx
 }
 
